@@ -31,8 +31,15 @@
      keys_ok l         every key of l is an int32
    Layer A (Spec/Bins.v, Spec/BinsProofs.v): bins, wf (canonical), pos (weights > 0), bmerge, norm. *)
 From Coq Require Import Bool NArith ZArith List Permutation.
-From SK Require Import Base.Prelude Base.F64 Codec.Codec Spec.Bins Spec.BinsProofs Wire.Proto Wire.ProtoProofs.
-From SK Require Store.Dense Store.DenseProofs.
+From SK Require Import Base.Prelude.
+From SK Require Import Base.F64.
+From SK Require Import Codec.Codec.
+From SK Require Import Spec.Bins.
+From SK Require Import Spec.BinsProofs.
+From SK Require Import Wire.Proto.
+From SK Require Import Wire.ProtoProofs.
+From SK Require Store.Dense.
+From SK Require Store.DenseProofs.
 Import ListNotations.
 Local Open Scope Z_scope.
 
